@@ -169,6 +169,14 @@ where go : List String → String
       | some ss => if (temporalRoots ss).isSome then "ok" else "err"
       | none => "bad-op"
     | none => "bad-op"
+  | ["newc", g, pk] =>
+    match parseBool? g, parseBool? pk with
+    | some g, some pk =>
+      match newClient g (if pk then some ({ kind := .ecdsa } : Key) else none) with
+      | .ok (some _) => "ok verifier"
+      | .ok none => "ok keyless"
+      | _ => "err"
+    | _, _ => "bad-op"
   | ["nores", _] => "err"      -- the transport failed: no response, hence a bare error (jsonclient returns the transport's error)
   | ["get", st, jok] =>
     match parseNat? st, parseBool? jok with
